@@ -1,6 +1,6 @@
 (* Suite05.v -- correspondence suite 50 (C05): the number tables through their public
    conversions.  Input [kind; x; ...]; see run50 for the kinds. *)
-From CoapV Require Import Base Header Packet Utf8 Numbers Registry Accessors.
+From CoapV Require Import Base Header Packet UintOpt Utf8 Numbers Registry Accessors.
 
 (* ---- Display for MessageClass ("c.dd") and Header::set_code, on ASCII codes ---- *)
 Definition digit (d : N) : N := 48 + d.
@@ -78,6 +78,9 @@ Definition run50 (s : list N) : list N :=
   | [11; x] => (* what the convenience readers CoapResponse::get_status / CoapRequest::get_method report for a code *)
                let p := mkPacket (mkHeader 64 (class_dec x) 0) [] [] [] in
                [resp_index (get_status p); req_to_byte (get_method p)]
+  | [12; x] => (* the observe action CoapRequest::get_observe_flag reads off an Observe option that holds x in its shortest form *)
+               match get_observe_flag (set_opts packet_new [(6, [be_min x])]) with
+               | None => [0] | Some (Ok f) => [1; 0; of_observe f] | Some _ => [1; 1] end
   | _ => [999]
   end.
 
@@ -123,6 +126,8 @@ Definition spec50 (s : list N) : option (list N) :=
                let c := if x <? 256 then registry_code x else Reserved 0 in
                Some [match c with Response r => resp_index r | _ => 27 end;
                      match c with Request r => req_to_byte r | _ => 255 end]
+  | [12; x] => (* a named action exactly for the registered numbers; every other 32-bit number is an error, never an alias *)
+               Some (match registry_observe x with Some _ => [1; 0; x] | None => [1; 1] end)
   | _ => None
   end.
 
@@ -140,6 +145,7 @@ Definition in_domain50 (s : list N) : bool :=
   | [9; v; x] => (v <? 256) && (x <? 256)
   | [10; i] => i <? 8
   | [11; x] => (x <? 258) || ((512 <=? x) && (x <? 768))
+  | [12; x] => x <? U32
   | _ => false
   end.
 
